@@ -70,6 +70,7 @@ def tree_hash(repo):
             h.update(os.path.relpath(f, repo).encode())
             h.update(open(f, 'rb').read())
     h.update(open(BX_SRC, 'rb').read())
+    h.update(os.path.abspath(repo).encode())   # facts carry absolute paths
     return h.hexdigest()[:24]
 
 
